@@ -20,7 +20,7 @@ def project_keys(blk, keys, acts=False):
     if acts: r = r + (tuple(blk.acts),)
     return r
 
-def oracle(name, ib, meta):
+def oracle(name, ib, mb, meta):
     return []
 def count(name, lines, ib, stats, meta):
     stats['evaluations'] += 1
